@@ -11,7 +11,7 @@ ID = 'C12'
 LEVEL = 'model_checking'
 RULE = ('E1 enumeration: 3-5 level-0 cells (numbers not in card order); per cell the importance source in '
         '{IMP:N=v, IMP:N,P=v, IMP:N=v IMP:P=w, IMP:P=w IMP:N=v, none}; data cards imp:n (and optionally imp:p) '
-        'written expanded or with nR / nM / nI shorthand; values in {0, 1, 2, 0.25, 0.5} (fractional importances are non-zero); oracle: set of VOLU ids = cells '
+        'written expanded or with nR / nM / nI shorthand; values in {0, 1, 2, 0.25, 0.5} (fractional importances are non-zero); one of the other MCNP cell parameters (VOL, UNC, NONU, TMP, PWT, EXT, FCL, ELPT, WWN, DXC, PD, COSY, BFLCL) on the first card; oracle: set of VOLU ids = cells '
         'whose maximum importance over particle types is non-zero, NOTE line lists exactly the others; '
         'non-trivial = at least one cell dropped and one kept; distinct = deck text')
 ASSUMPTIONS = ['importance of a cell = maximum over the particle types given (property statement)',
@@ -69,6 +69,10 @@ SOURCES = ['imp:n=%(n)s', 'none', 'imp:n,p=%(n)s', 'imp:n=%(n)s imp:p=%(p)s', 'i
            'like:']
 
 
+OTHER_KW = ['', 'vol=1', 'unc:n=1', 'nonu=1', 'tmp=2.53e-8', 'pwt=1', 'ext:n=0', 'fcl:n=0', 'elpt:n=0.1',
+            'wwn1:n=0.5', 'dxc1:n=1', 'pd1=0.5', 'cosy=1', 'bflcl=0', 'VOL 2 TMP 2.53E-8']
+
+
 def fmtnum(v):
     return '%g' % v
 
@@ -119,6 +123,10 @@ def build_n(ncells):
             dicts.append(d)
             st.cells.append(card)
             st.expected[num] = max(d.values())
+        # another cell parameter on the first card: it must not change which cells are converted
+        extra = ch.choose('other-keyword', OTHER_KW)
+        if extra and not st.cells[0].split()[1] == 'like':
+            st.cells[0] = st.cells[0] + ' ' + extra if '$' not in st.cells[0] else st.cells[0].replace(' $', ' ' + extra + ' $', 1)
         mode = ch.choose('shorthand', ['expanded', 'R', 'M', 'I', 'all'])
         # a cell of an (unused) universe between the level-0 cells: it occupies a position on the IMP data cards
         upos = ch.choose('universe-cell-at', [None, 1, 0, 2])
